@@ -10,10 +10,24 @@ use super::*;
 mod spec;
 use spec::*;
 
+static mut RAND_LOG: u64 = 0;
+static mut RAND_CNT: usize = 0;
+/// any value of the requested range; logs it so that the result can be compared with 0x1f * N + 0x21 for
+/// the very N that was drawn (cheaper for the SAT solver than `% 0x1f` on a product)
 fn stub_fastrand_u64<R: std::ops::RangeBounds<u64>>(r: R) -> u64 {
     let x: u64 = kani::any();
     kani::assume(r.contains(&x));
+    unsafe {
+        RAND_LOG = x;
+        RAND_CNT += 1;
+    }
     x
+}
+fn drawn() -> u64 {
+    unsafe {
+        assert!(RAND_CNT == 1);
+        RAND_LOG
+    }
 }
 
 // vp: props=C14; tag=C14.streamtype.encode; kind=complete; tier=quick
@@ -65,13 +79,13 @@ fn c14_streamtype_constants() {
 }
 
 // vp: props=C14; tag=C14.grease.streamtype; kind=complete; tier=quick
-// for every value fastrand can return: the grease stream type is 0x1f*N+0x21, fits a varint, the
-// computation does not overflow, and it is none of the types that have a meaning
+// for every N fastrand can return: the grease stream type is exactly 0x1f*N+0x21 (no overflow), fits a
+// varint, and is none of the types that have a meaning
 #[kani::proof]
 #[kani::stub(fastrand::u64, stub_fastrand_u64)]
 fn c14_streamtype_grease_form() {
     let g = StreamType::grease().value();
-    assert!(spec_is_grease(g));
+    assert!(g as u128 == spec_grease_nth(drawn()));
     assert!(g < TWO62);
     assert!(g != SPEC_ST_CONTROL && g != SPEC_ST_PUSH && g != SPEC_ST_QPACK_ENCODER && g != SPEC_ST_QPACK_DECODER);
     assert!(g != SPEC_WT_UNI_STREAM && g != SPEC_WT_BIDI_SIGNAL);
